@@ -199,7 +199,20 @@ def main():
             b'HTTP/1.1 200 OK\r\n' + b'X: y\r\n' * 5000 + b'\r\n', b'HTTP/1.1 200 OK\r\nTransfer-Encoding: chunked\r\n\r\n' + b'1\r\na\r\n' * 20000 + b'0\r\n\r\n',
             b'HTTP/1.1 200 OK\r\nTransfer-Encoding: chunked\r\n\r\n1' + b';e=f' * 10000 + b'\r\na\r\n0\r\n' + b'T: v\r\n' * 20000 + b'\r\n',
             b'HTTP/1.1 200 OK\r\nX: a\r\n' + b' folded\r\n' * 3000 + b'Content-Length: 0\r\n\r\n']
-    run_target('http-stream', WIRE, through_stream, (ProtocolError, NetworkError), rnd, n // 4, bad, stats)
+    # every spelling of a number a header can carry: what int() accepts and str.isdigit() rejects and vice versa (superscript and other Unicode digits arrive as
+    # latin-1 bytes), signs, underscores, blanks, more digits than int() converts (4300), hexadecimal, exponents
+    NUMS = [b'5', b'05', b'+5', b'-5', b'-0', b'1_0', b' 5', b'5 ', b'\xb2', b'\xb9\xb2\xb3', b'5\xb2', b'\xbc', b'\xd9\xa3', b'0x5', b'5e0', b'5.0', b'', b'9' * 4300, b'9' * 4301, b'9' * 70000, b'\x00', b'5,5', b'5;5']
+    for num in NUMS:
+        WIRE.append(b'HTTP/1.1 200 OK\r\nContent-Length: ' + num + b'\r\n\r\nhello')
+        WIRE.append(b'HTTP/1.1 200 OK\r\nTransfer-Encoding: chunked\r\n\r\n' + num + b'\r\nhello\r\n0\r\n\r\n')
+        WIRE.append(b'HTTP/1.1 ' + num[:40] + b' OK\r\nContent-Length: 0\r\n\r\n')
+    for w in WIRE[5:]:
+        stats['http-stream'] = stats.get('http-stream', 0) + 1
+        try: through_stream(w)
+        except (ProtocolError, NetworkError): pass
+        except BaseException as e:
+            if len([b for b in bad if b['target'] == 'http-stream']) < 6: bad.append({'target': 'http-stream', 'input': repr(w[:90]), 'problem': '%s: %s escapes the HTTP reader; the caller handles only ProtocolError / NetworkError' % (type(e).__name__, str(e)[:80])})
+    run_target('http-stream', WIRE[:5], through_stream, (ProtocolError, NetworkError), rnd, n // 4, bad, stats)
     for w in LONG:
         stats['http-stream-long-runs'] = stats.get('http-stream-long-runs', 0) + 1
         try: through_stream(w)
